@@ -41,6 +41,9 @@ RPCS = {
     'CreateStudy': ('CreateStudy', 's'),
     'EarlyStop1': ('CheckTrialEarlyStoppingState', 's', 1),
     'Complete2': ('CompleteTrial', 's', 2, 'final'),
+    # calls whose datastore operation ends in a rollback (a second study of an existing owner; metadata for a missing trial)
+    'CreateStudyT': ('CreateStudy', 't'),
+    'MdMissing': ('UpdateMetadata', 's', ((9, '', 'k', 'v'),)),
 }
 _B = {}
 
@@ -248,8 +251,10 @@ def scenarios(ctx):
   if ctx.quick:
     out.append({'kind': 'ram', 'prefix': 'empty', 'rpcs': ['CreateStudy', 'CreateStudy'], 'bound': 2})
     out.append({'kind': 'sqlmem', 'prefix': 'empty', 'rpcs': ['CreateStudy', 'CreateStudy'], 'bound': 2})
-    for pair in (('SugA1', 'SugB1'), ('Create', 'SugA1'), ('Complete1', 'MdTrial1'), ('Inactive', 'MdStudy'), ('Delete1', 'SugB1')):
-      out.append({'kind': 'sqlmem', 'prefix': 'req+active', 'rpcs': list(pair), 'bound': 1})
+    # the SQL datastore (one shared connection, one open transaction): every pair once more on two prefixes
+    for p in ('study', 'req+active'):
+      for pair in itertools.combinations_with_replacement(names, 2):
+        out.append({'kind': 'sqlmem', 'prefix': p, 'rpcs': list(pair), 'bound': 1})
   else:
     triples = [('SugA1', 'SugB1', 'Create'), ('SugA1', 'Complete1', 'MdTrial1'), ('Create', 'Create', 'SugA2'),
                ('Inactive', 'MdStudy', 'MdStudy2'), ('Delete1', 'SugB1', 'Create'), ('SugA1', 'SugA1', 'SugB1'),
